@@ -125,6 +125,7 @@ func (r ref) String() string {
 type mutEffect struct {
 	Base     ref    // root that is written (param/free/global of the summarised function)
 	Class    string // node | expr | ctx | global | other
+	StName   string // struct type whose field is written ("[]T" for a slice slot)
 	Field    string
 	Vals     oset // where the stored value comes from (roots / fresh marker)
 	ValFresh bool
@@ -141,9 +142,10 @@ func (m *mutEffect) key() string {
 }
 
 type putEffect struct {
-	Base ref
-	Vals oset
-	Site ssa.Instruction
+	Base   ref
+	Vals   oset
+	Site   ssa.Instruction
+	StName string
 }
 
 type cbCall struct {
@@ -202,6 +204,8 @@ type mutfx struct {
 	undecided []string
 	freshObj  *obj
 	wevals    map[string]*wEval
+	onceFuncs map[*ssa.Function]bool
+	cgSites   map[ssa.Instruction][]*ssa.Function // call-graph resolution of dynamic call sites
 	ver       map[*ssa.Function]int
 	seenVer   map[*ssa.Function]map[*ssa.Function]int
 	converged bool
@@ -209,7 +213,7 @@ type mutfx struct {
 
 func newMutFX(c *Ctx) *mutfx {
 	c.P.buildSSA()
-	m := &mutfx{c: c, wevals: map[string]*wEval{}, sums: map[*ssa.Function]*summary{}, inSet: map[*ssa.Function]bool{}, optypes: map[*ssa.Global]*OpType{}, impls: map[string][]*ssa.Function{}, roots: map[string]*obj{}}
+	m := &mutfx{c: c, onceFuncs: map[*ssa.Function]bool{}, wevals: map[string]*wEval{}, sums: map[*ssa.Function]*summary{}, inSet: map[*ssa.Function]bool{}, optypes: map[*ssa.Global]*OpType{}, impls: map[string][]*ssa.Function{}, roots: map[string]*obj{}}
 	m.freshObj = &obj{kind: kRet}
 	if c.tables() {
 		sp := c.P.SSAPkg[c.P.LibPath]
@@ -292,6 +296,27 @@ func syntheticTargetsModule(c *Ctx, fn *ssa.Function) bool {
 
 func (m *mutfx) run() {
 	m.collect()
+	// dynamic calls whose callee value is loaded from a package-level table
+	// (the lexer's rule actions) are resolved with the VTA call graph
+	m.cgSites = map[ssa.Instruction][]*ssa.Function{}
+	g := m.c.P.CallGraph("vta")
+	for _, fn := range m.funcs {
+		n := g.Nodes[fn]
+		if n == nil {
+			continue
+		}
+		for _, e := range n.Out {
+			if e.Site == nil || e.Callee == nil || e.Callee.Func == nil {
+				continue
+			}
+			if e.Site.Common().StaticCallee() != nil || e.Site.Common().IsInvoke() {
+				continue
+			}
+			if m.inSet[e.Callee.Func] {
+				m.cgSites[e.Site] = append(m.cgSites[e.Site], e.Callee.Func)
+			}
+		}
+	}
 	for _, fn := range m.funcs {
 		m.sums[fn] = newSummary(fn)
 	}
@@ -637,7 +662,7 @@ func (f *frame) guards(b *ssa.BasicBlock) (bool, bool) {
 
 func (f *frame) recordMut(base ref, ai addrInfo, class string, vals oset, ins ssa.Instruction) {
 	ac, al := f.guards(ins.Block())
-	e := &mutEffect{Base: base, Class: class, Field: ai.field, Vals: rootsOnly(closure(vals)), ValFresh: hasFresh(vals), Guarded: ac, AliasG: al, Site: ins, SiteFn: f.fn, Chain: funcKey(f.fn)}
+	e := &mutEffect{Base: base, Class: class, StName: ai.stName, Field: ai.field, Vals: rootsOnly(closure(vals)), ValFresh: hasFresh(vals), Guarded: ac, AliasG: al, Site: ins, SiteFn: f.fn, Chain: funcKey(f.fn)}
 	f.addMut(e)
 }
 
@@ -676,7 +701,14 @@ func hasFresh(s oset) bool {
 	return false
 }
 
-func (f *frame) recordPut(base ref, vals oset, ins ssa.Instruction) {
+func (f *frame) recordPut(base ref, vals oset, ins ssa.Instruction, stName ...string) {
+	sn := ""
+	if len(stName) > 0 {
+		sn = stName[0]
+	}
+	if sn != "" && !f.rootMayHold(base, sn) {
+		return
+	}
 	k := fmt.Sprintf("%p|%v", ins, base)
 	rv := rootsOnly(closure(vals))
 	if old, ok := f.sum.puts[k]; ok {
@@ -685,7 +717,7 @@ func (f *frame) recordPut(base ref, vals oset, ins ssa.Instruction) {
 		}
 		return
 	}
-	f.sum.puts[k] = &putEffect{Base: base, Vals: rv, Site: ins}
+	f.sum.puts[k] = &putEffect{Base: base, Vals: rv, Site: ins, StName: sn}
 	f.m.changed = true
 }
 
@@ -715,11 +747,13 @@ func (f *frame) store(a ssa.Value, vals oset, ins ssa.Instruction, valIsStruct b
 			}
 			if class == "other" || class == "ctx" {
 				if r.o.kind == kGlobal {
-					f.recordMut(r, ai, "global", vals, ins)
+					if f.rootMayHold(r, ai.stName) {
+						f.recordMut(r, ai, "global", vals, ins)
+					}
 				} else {
-					f.recordPut(r, vals, ins)
+					f.recordPut(r, vals, ins, ai.stName)
 				}
-			} else {
+			} else if f.rootMayHold(r, ai.stName) {
 				f.recordMut(r, ai, class, vals, ins)
 			}
 		}
@@ -1127,6 +1161,15 @@ func (f *frame) call(ins ssa.Instruction, cc *ssa.CallCommon, resv ssa.Value) {
 		f.setResult(resv, nres, 0, res)
 		return
 	}
+	// an expression parsed at run time from a string is a user expression like
+	// the handler's own operands: opaque, nothing is attributed to evaluating it
+	if (cc.IsInvoke() && cc.Method.Name() == "ParseExpression") || (cc.StaticCallee() != nil && cc.StaticCallee().Name() == "ParseExpression") {
+		if resv != nil {
+			o := f.localObj(kRet, resv, 0)
+			f.setResult(resv, nres, 0, single(ref{o: o}))
+		}
+		return
+	}
 	// static module callee
 	if cal := cc.StaticCallee(); cal != nil && f.m.inSet[cal] {
 		f.apply(f.m.sums[cal], argSets, nil, ins, resv, nres, funcKey(cal))
@@ -1164,6 +1207,13 @@ func (f *frame) call(ins ssa.Instruction, cc *ssa.CallCommon, resv ssa.Value) {
 			case r.o.isRoot():
 				resolved = true
 				f.recordCb(r, argSets, ins)
+				if r.o.kind == kGlobal {
+					// a function stored in a package-level table: every function the
+					// call graph allows at this site
+					for _, cal := range f.m.cgSites[ins] {
+						f.apply(f.m.sums[cal], argSets, nil, ins, resv, nres, funcKey(cal))
+					}
+				}
 			}
 		}
 		_ = resolved
@@ -1203,6 +1253,25 @@ func (f *frame) foreign(args []oset, ins ssa.Instruction, resv ssa.Value, nres i
 	all := oset{}
 	for _, a := range args {
 		all.addAll(a)
+	}
+	// closures handed to a foreign function run there (strings.Map, sort.Slice,
+	// regexp.ReplaceAllStringFunc ...). sync.Once.Do runs its argument at most
+	// once per process: start-up initialisation, not evaluation state.
+	for _, a := range args {
+		for r := range a {
+			if r.o.kind == kFunc && f.m.inSet[r.o.fn] {
+				if strings.HasSuffix(name, "sync.Once).Do") {
+					f.m.onceFuncs[r.o.fn] = true
+					continue
+				}
+				np := len(r.o.fn.Params)
+				cargs := make([]oset, np)
+				for i := range cargs {
+					cargs[i] = all
+				}
+				f.apply(f.m.sums[r.o.fn], cargs, f.bindingsOf(r.o), ins, nil, 0, funcKey(r.o.fn))
+			}
+		}
 	}
 	mutator := method && len(args) > 0 && foreignMutates(name)
 	if mutator {
@@ -1422,7 +1491,10 @@ func (f *frame) apply(s *summary, args []oset, bind []oset, ins ssa.Instruction,
 				}
 			case t.o.kind == kFunc:
 			default:
-				ne := &mutEffect{Base: t, Class: e.Class, Field: e.Field, Vals: rootsOnly(vals), ValFresh: e.ValFresh || hasFresh(vals), Guarded: e.Guarded || ac, AliasG: e.AliasG || al, Dyn: e.Dyn, Site: e.Site, SiteFn: e.SiteFn, Chain: funcKey(f.fn) + " -> " + e.Chain}
+				if !f.rootMayHold(t, e.StName) {
+					continue
+				}
+				ne := &mutEffect{Base: t, Class: e.Class, StName: e.StName, Field: e.Field, Vals: rootsOnly(vals), ValFresh: e.ValFresh || hasFresh(vals), Guarded: e.Guarded || ac, AliasG: e.AliasG || al, Dyn: e.Dyn, Site: e.Site, SiteFn: e.SiteFn, Chain: funcKey(f.fn) + " -> " + e.Chain}
 				f.addMut(ne)
 			}
 		}
@@ -1437,10 +1509,13 @@ func (f *frame) apply(s *summary, args []oset, bind []oset, ins ssa.Instruction,
 				}
 			case t.o.kind == kFunc:
 			default:
+				if p.StName != "" && !f.rootMayHold(t, p.StName) {
+					continue
+				}
 				if t.o.kind == kGlobal {
-					f.addMut(&mutEffect{Base: t, Class: "global", Field: "[]", Vals: rootsOnly(vals), Site: p.Site, SiteFn: s.fn, Chain: funcKey(f.fn) + " -> " + funcKey(s.fn), Guarded: ac})
+					f.addMut(&mutEffect{Base: t, Class: "global", StName: p.StName, Field: "[]", Vals: rootsOnly(vals), Site: p.Site, SiteFn: p.Site.Parent(), Chain: funcKey(f.fn) + " -> " + funcKey(s.fn), Guarded: ac})
 				} else {
-					f.recordPutAt(t, vals, p.Site)
+					f.recordPutAt(t, vals, p.Site, p.StName)
 				}
 			}
 		}
@@ -1481,7 +1556,7 @@ func (f *frame) applyGuarded(s *summary, args []oset, bind []oset, ins ssa.Instr
 	f.apply(s, args, bind, ins, nil, 0, "")
 }
 
-func (f *frame) recordPutAt(base ref, vals oset, site ssa.Instruction) {
+func (f *frame) recordPutAt(base ref, vals oset, site ssa.Instruction, stName string) {
 	k := fmt.Sprintf("%p|%v", site, base)
 	rv := rootsOnly(closure(vals))
 	if old, ok := f.sum.puts[k]; ok {
@@ -1490,7 +1565,7 @@ func (f *frame) recordPutAt(base ref, vals oset, site ssa.Instruction) {
 		}
 		return
 	}
-	f.sum.puts[k] = &putEffect{Base: base, Vals: rv, Site: site}
+	f.sum.puts[k] = &putEffect{Base: base, Vals: rv, Site: site, StName: stName}
 	f.m.changed = true
 }
 
@@ -1676,4 +1751,64 @@ type wEval struct {
 	In     *ssa.Function // frame where the writable context met the user expression
 	WSite  string
 	Chain  string
+}
+
+// rootMayHold: can an object of struct type stName be (deep: be reachable
+// from) the root r of this frame, judging by declared types?
+func (f *frame) rootMayHold(r ref, stName string) bool {
+	stName = strings.TrimPrefix(stName, "[]")
+	if stName == "" || stName == "global" || stName == "map" {
+		return true
+	}
+	var t types.Type
+	switch r.o.kind {
+	case kParam:
+		if r.o.idx < len(f.fn.Params) {
+			t = f.fn.Params[r.o.idx].Type()
+		}
+	case kFree:
+		if r.o.idx < len(f.fn.FreeVars) {
+			t = f.fn.FreeVars[r.o.idx].Type()
+		}
+	case kGlobal:
+		t = r.o.g.Type()
+	}
+	if t == nil {
+		return true
+	}
+	return typeReaches(t, stName, map[types.Type]bool{}, 0)
+}
+
+func typeReaches(t types.Type, stName string, seen map[types.Type]bool, d int) bool {
+	if d > 8 || seen[t] {
+		return false
+	}
+	seen[t] = true
+	if n, ok := t.(*types.Named); ok && n.Obj().Name() == stName {
+		return true
+	}
+	switch u := t.Underlying().(type) {
+	case *types.Pointer:
+		return typeReaches(u.Elem(), stName, seen, d+1)
+	case *types.Slice:
+		return typeReaches(u.Elem(), stName, seen, d+1)
+	case *types.Array:
+		return typeReaches(u.Elem(), stName, seen, d+1)
+	case *types.Map:
+		return typeReaches(u.Key(), stName, seen, d+1) || typeReaches(u.Elem(), stName, seen, d+1)
+	case *types.Chan:
+		return typeReaches(u.Elem(), stName, seen, d+1)
+	case *types.Struct:
+		for i := 0; i < u.NumFields(); i++ {
+			if typeReaches(u.Field(i).Type(), stName, seen, d+1) {
+				return true
+			}
+		}
+		return false
+	case *types.Interface:
+		return true // anything can hide behind an interface (list elements, Preferences)
+	case *types.Signature:
+		return false
+	}
+	return false
 }
